@@ -90,6 +90,45 @@ Theorem member_names_sorted_permutation : forall order,
 Proof. exact member_names_sorted_permutation_l. Qed.
 Print Assumptions get_methods_oracle_independent.
 
+(* ---- collect the keys, sort, then use them: node/class_abstract_validate.go abstractStaticMethodNames,
+   node/init_class.go InitClass.GetValue, node/html.go generateNormalHtml, node/js_server.go
+   formatObjectValue, the superglobal / request accessors filled from url.Values and http.Header.
+   For every filter applied while collecting, every per-key body (of any accumulator type) and
+   every start value: the result does not depend on the order Go ranges over the map, and it is the
+   body folded over the one sorted arrangement of the kept keys. ---- *)
+Theorem sorted_range_oracle_independent : forall (A : Type) (kp : string -> bool) (body : A -> string -> A) init keys,
+  oracle_independent keys (sorted_range kp body init).
+Proof. exact sorted_range_oracle_independent_l. Qed.
+Theorem sorted_range_spec : forall (A : Type) (kp : string -> bool) (body : A -> string -> A) init order,
+  exists l, Permutation (filter kp order) l /\ ssorted l /\ sorted_range kp body init order = fold_left body l init.
+Proof. exact sorted_range_spec_l. Qed.
+Print Assumptions sorted_range_oracle_independent.
+
+(* node/js_server.go formatClassOrObjectValue: the object's insertion order first, the remaining keys sorted:
+   independent of the map order, every key exactly once, the preferred keys first and in their order *)
+Theorem preferred_then_sorted_oracle_independent : forall preferred keys,
+  oracle_independent keys (preferred_then_sorted preferred).
+Proof. exact preferred_then_sorted_oracle_independent_l. Qed.
+Theorem preferred_then_sorted_permutation : forall preferred order, NoDup order ->
+  Permutation order (preferred_then_sorted preferred order).
+Proof. exact preferred_then_sorted_permutation_l. Qed.
+Theorem preferred_then_sorted_prefix : forall preferred order, NoDup preferred -> (forall k, In k preferred -> In k order) ->
+  exists rest, preferred_then_sorted preferred order = (preferred ++ rest)%list.
+Proof. exact preferred_then_sorted_prefix_l. Qed.
+Print Assumptions preferred_then_sorted_permutation.
+
+(* node/html.go generateHtml / HtmlTemplateNode.GetValue pick "the" for / if attribute of an element by
+   ranging over the attribute map: order independent exactly when at most one attribute is of the kind;
+   with two of them the answer follows the iteration order (unique_pick_needs_uniqueness). *)
+Theorem unique_pick_oracle_independent : forall (is_kind : string -> bool) keys,
+  (forall a b, In a keys -> In b keys -> is_kind a = true -> is_kind b = true -> a = b) ->
+  oracle_independent keys (pick_last is_kind).
+Proof. exact unique_pick_oracle_independent_l. Qed.
+Theorem unique_pick_needs_uniqueness : forall (is_kind : string -> bool) a b, a <> b -> is_kind a = true -> is_kind b = true ->
+  pick_last is_kind [a; b] <> pick_last is_kind [b; a].
+Proof. exact pick_last_order_dependent_l. Qed.
+Print Assumptions unique_pick_oracle_independent.
+
 (* ---- "A program run on a freshly created VM behaves the same whether or not other programs
    were run earlier in the same process on other VMs" ----
    for every placement of state cells (scope_of) and all scripts A, B: unless A writes a
@@ -104,8 +143,10 @@ Theorem fresh_vm_observes_reset_state : forall scope_of w c, sticky scope_of c =
 Proof. exact fresh_vm_observes_reset_state_l. Qed.
 Print Assumptions fresh_vm_observes_reset_state.
 
-(* the clause is FALSE of the code for every package-level cell that is never reset (ini store,
-   default timezone, ...): each such cell leaks.  Findings: KNOWN_FINDINGS leak:<cell>. *)
+(* the clause is FALSE of the code for every package-level cell that is never reset: each such
+   cell leaks.  Today: the process environment (putenv), KNOWN_FINDINGS leak:putenv; the cells this
+   theorem used to describe (ini store, superglobal caches, autoload list, ...) are reset since the
+   fixed: lines of KNOWN_FINDINGS. *)
 Theorem sticky_leaks_refuted : forall scope_of c v, scope_of c = ProcSticky -> v <> 0%Z ->
   out_after scope_of [AWrite c v] [ARead c] <> out_alone scope_of [ARead c].
 Proof. exact sticky_leaks_l. Qed.
